@@ -71,6 +71,17 @@ def drive(lines, traj, schedule):
     return run, recs, ended
 
 
+def descendants(info, idx):
+    out = []
+    for j in range(idx + 1, len(info)):
+        p = info[j]["parent"]
+        while p is not None and p != idx:
+            p = info[p]["parent"]
+        if p == idx:
+            out.append(j)
+    return out
+
+
 def judge(lines, info, traj, run: Run, recs, ended):
     probs = []
     rec = fc.record_table(run)
@@ -122,7 +133,12 @@ def judge(lines, info, traj, run: Run, recs, ended):
             if not ever_true and not forced:
                 probs.append((f"C04:{kind}-body-started-without-condition",
                               f"{kind} {li['id']} registered at tick {reg} started its body at tick {s}; X trajectory {traj} was never > 1 in between and no force was accepted"))
-            if encl_end is not None and s > encl_end + 1:
+            # "runs" = a line of the body executes.  (An Alarm that is registered in the very tick in which its block ends keeps
+            # reporting started/completed in its record without ever executing a body line; the property is about the body.)
+            nxt = min([x for x in starts if x > s], default=HORIZON + 1)
+            body_ran = [(info[j]["id"], t_) for j in descendants(info, li["idx"]) if info[j]["id"] in rec
+                        for nm, t_ in rec[info[j]["id"]]["states"] if nm == "started" and s <= t_ < nxt]
+            if encl_end is not None and s > encl_end + 1 and body_ran:
                 probs.append((f"C04:{kind}-body-started-after-block-ended",
                               f"{kind} {li['id']} started its body at tick {s}; its enclosing block ended at tick {encl_end}"))
             for c in cancels:
@@ -161,9 +177,11 @@ def judge(lines, info, traj, run: Run, recs, ended):
                     p_ = info[p_]["parent"]
                 if p_ != li["idx"] or any(nm in ("Watch", "Alarm") for nm in chain):
                     continue
-                if marks_seen[bl["arg"]] < len(completes) and not cancels:
+                # runs recorded after the enclosing block ended execute no body line (rightly so)
+                n_runs = len([c_ for c_ in completes if encl_end is None or c_ <= encl_end + 1])
+                if marks_seen[bl["arg"]] < n_runs and not cancels:
                     probs.append(("C04:Alarm-run-skipped-part-of-its-body",
-                                  f"Alarm {li['id']} completed {len(completes)} runs (ticks {completes}) but its body line "
+                                  f"Alarm {li['id']} completed {n_runs} runs (ticks {completes}) before its block ended but its body line "
                                   f"{bl['id']} 'Mark: {bl['arg']}' ran only {marks_seen[bl['arg']]} times"))
             # re-arm liveness
             for c in completes:
@@ -229,6 +247,16 @@ def corpus(ctx):
     for f in ((("Al", (blk,)),), (("Al", (M, blk)),), (("Al", (blk, M)),), (("Al", (("Wa", (blk,)),)),), (("K", (("Al", (blk,)), ("W", ()), EB)),)):
         if f not in fs:
             fs.append(f)
+    # a Watch/Alarm of a block whose body is 'End block', followed in the same block by another Watch/Alarm (registered just
+    # before / in the tick in which the block ends), optionally with a line in between or after
+    W = ("W", ())
+    for first in ("Wa", "Al"):
+        for second in ("Wa", "Al"):
+            for mid in ((), (W,), (M,)):
+                for tail in ((), (W,), (W, W)):
+                    f = (("K", ((first, (EB,)),) + mid + ((second, (M,)),) + tail),)
+                    if f not in fs:
+                        fs.append(f)
     plain = trajectories(2 if ctx.quick else 3)
     few = [tr for tr in plain if len(tr[1]) <= 1]
     items = []
